@@ -1,4 +1,29 @@
-"""P_seq -- C05 / C01: the fill sequences (FillSeq, FillComputeSeq, FillRequestSeq) and meta.flatten / alter_sequence."""
+"""P_seq -- C05 / C01: the fill sequences (lena/core/fill_seq.py, fill_compute_seq.py, fill_request_seq.py) and
+lena/core/meta.py (flatten, alter_sequence); the regrouping lemma of C01 and the result-level statement of C05 as Lemma units.
+
+Constructors (arity-wise, 0..3 arguments; every element kind through the abstract predicates callable / callable_m / has_attr):
+  FillSeq.__init__            which arguments are taken as they are / converted with adapters.FillInto (and which fill_into
+                              the adapter gets), the chain of _Fill links, `fill` of the sequence = fill of the head of the chain,
+                              LenaTypeError iff no argument / last one without fill / one that FillInto refuses
+  FillComputeSeq.__init__     the FIRST fill/compute element is THE element; FillSeq of everything up to it, Sequence of the
+  _init_sequence_with_el      rest; LenaTypeError iff there is none or one of the two refuses an argument (same for the first
+  FillRequestSeq.__init__     fill/request element; one tuple argument is expanded); the keyword arguments go to the
+                              FillRequest adapter the sequence runs through (one more case of FillRequest.__init__: around a
+                              FillRequestSeq); run of the sequence IS _run_fill_compute of that adapter (C16)
+The constructor contracts ASSUMED in contracts/P_split.py are replaced by these (replace()); its clauses about FillRequestSeq
+are re-worded from ghost fields to the real attributes (retarget_split_contracts).
+Fill chain: _Fill.fill for two callables before the last element, FillInto.fill_into filling a link of the chain.
+Lemmas: R1-R3 (seq_run over equal segments / of a concatenation / with a nested sequence = regrouping), and for 0..2 callables
+before the accumulator: FillComputeSeq filled value by value, then computed == Sequence.run on the same flow.
+meta.py: flatten (element, flat tuple, flat and nested sequence objects: every element once, in order; flat input = same object),
+alter_sequence (original object for elements / sequence objects without the hook, for tuples and nested sequences; an element
+with the hook: what its hook returns).
+
+Findings on the unchanged tree (props=[] / reported): FillRequestSeq with exactly the documented keywords (bufsize, reset)
+always raises LenaValueError; meta.alter_sequence drops what the hook of an element of a Sequence returns (see report).
+Not reached: the hook of an element INSIDE a sequence object (`el.alter_sequence(seq)` with a sequence object as argument and
+`new_seq == seq` between sequence objects are not modelled); elements with their own fill_into inside the chain (no denotation for a user
+fill_into); sequence objects given as ABSTRACT objects (iteration over an abstract object is not modelled)."""
 from pyvc.contracts import Contract, LoopSpec, ClassSpec
 
 AD = "lena/core/adapters.py"
@@ -23,11 +48,18 @@ def fill_into_clauses(e, d):
     fi, call = HAS_FI.format(e=e), "(callable(%s) and not is_instance_of(%s, 'Split'))" % (e, e)
     return ["%s implies %s is %s" % (fi, d, e),
             "not %s implies is_instance_of(%s, 'FillInto') and %s._el is %s" % (fi, d, d, e),
-            "not %s and callable_m(%s, 'fill_into') implies %s.fill_into is method(%s, 'fill_into')" % (fi, e, d, e),
             # a callable keeps the default implementation element.fill(el(value)); a run element that can break the flow
             # fills every result of running the one-value flow
             "not callable_m(%s, 'fill_into') and %s implies %s.fill_into is class_method(%s, 'fill_into')" % (e, call, d, d),
             "not callable_m(%s, 'fill_into') and not %s implies %s.fill_into is class_method(%s, '_run_fill_into')" % (e, call, d, d)]
+
+
+def under(guard, clause):
+    """`guard implies clause` for a clause that may be an implication itself (the textual `implies` does not nest)"""
+    if " implies " in clause:
+        a, b = clause.split(" implies ", 1)
+        return "%s and %s implies %s" % (guard, a, b)
+    return "%s implies %s" % (guard, clause)
 
 
 def chain_clauses(root, data, k, last):
@@ -46,7 +78,11 @@ def register_fill_seq(ix):
     ix.add(Contract(FS, "_Fill.__init__", props=[], inline=True,
                     params={"self": "Self[_Fill0]", "fill_into_el": "Any", "fill_el": "Any"}))
     ix.add_class(ClassSpec("FillSeq", FS, fields={}, bases=["LenaSequence"]))
-    ix.add_class(ClassSpec("FillSeq0", FS, fields={}, alias_of="FillSeq", bases=["LenaSequence"]))
+    # (callers see the items of the two lists as abstract objects: an adapter made here is an object d with
+    # is_instance_of(d, 'FillInto') and the data attribute d._el, ghost obj_attrs)
+    # `fill` is some callable (proved: callable(self.fill)); for one argument callers also learn which (its own fill)
+    ix.add_class(ClassSpec("FillSeq0", FS, fields={"_seq": "Lst[Obj]", "_data_seq": "Lst[Obj]", "fill": "OpaqueFn"},
+                           alias_of="FillSeq", bases=["LenaSequence"]))
     MOD = ["self._name", "self._seq", "self._data_seq", "self._static_context", "self._exc", "self._fill_el", "self.fill"]
 
     def fs_init(n):
@@ -64,6 +100,7 @@ def register_fill_seq(ix):
         ens += chain_clauses("self._fill_el", "self._data_seq", n - 1, a(n - 1))
         # FillSeq.fill IS the fill of the head of the chain (of the last element itself when there is nothing before it)
         ens.append("self.fill is method(%s, 'fill')" % a(0) if n == 1 else "self.fill is class_method(self._fill_el, 'fill')")
+        ens.append("callable(self.fill)")
         return Contract(FS, "FillSeq.__init__", name="FillSeq.__init__[%d elements]" % n,
                         params={"self": "Self[FillSeq0]", "args": "Tuple[%s]" % ",".join(["Obj"] * n)}, vararg="args",
                         requires=nodata, raises={"LenaTypeError": " or ".join(bad)}, ensures=ens, modifies=MOD)
@@ -92,45 +129,48 @@ def run_clauses(e, d):
             "not %s and not callable(%s) implies %s.run is class_method(%s, '_fc_run')" % (hr, e, d, d)]
 
 
-def first_is(kind, n, k):
+ARG = lambda i: "args[%d]" % i
+
+
+def first_is(kind, n, k, a=ARG):
     """the first argument of kind `kind` among args[0..n) is args[k]"""
-    a = lambda i: "args[%d]" % i
     return "(" + " and ".join(["not " + kind.format(e=a(i)) for i in range(k)] + [kind.format(e=a(k))]) + ")"
 
 
-def split_bad(kind, n):
+def split_bad(kind, n, a=ARG):
     """LenaTypeError of the two constructors: no element of the kind, or an element before it that FillSeq refuses, or an
     element after it that Sequence refuses"""
-    a = lambda i: "args[%d]" % i
     none = "(" + (" and ".join("not " + kind.format(e=a(i)) for i in range(n)) or "True") + ")"
     alts = [none]
     for k in range(n):
         bad = ["not " + FS_EL.format(e=a(i)) for i in range(k)] + ["not " + SEQ_EL.format(e=a(j)) for j in range(k + 1, n)]
         if bad:
-            alts.append("(%s and (%s))" % (first_is(kind, n, k), " or ".join(bad)))
+            alts.append("(%s and (%s))" % (first_is(kind, n, k, a), " or ".join(bad)))
     return " or ".join(alts)
 
 
-def split_clauses(kind, n, attr):
+def split_clauses(kind, n, attr, a=ARG):
     """what `_init_sequence_with_el` / FillComputeSeq.__init__ document: the FIRST element of the kind is THE element
     (`only the first one is chosen, the subsequent ones are used as simple Run elements`); what stands before it becomes a
     FillSeq that ends in it, what follows a Sequence"""
-    a = lambda i: "args[%d]" % i
     out = []
     for k in range(n):
-        cl = ["self.%s is %s" % (attr, a(k)), "is_instance_of(self._fill_seq, 'FillSeq')",
-              "len(self._fill_seq._data_seq) == %d" % (k + 1), "self._fill_seq._data_seq[%d] is %s" % (k, a(k))]
+        # the FillSeq of the arguments up to and including the element (FillSeq.__init__: its _seq are its arguments, its
+        # _data_seq their FillInto conversions); filling the sequence IS filling that FillSeq
+        cl = ["self.%s is %s" % (attr, a(k)), "is_instance_of(self._fill_seq, 'FillSeq')", "self.fill is self._fill_seq.fill",
+              "len(self._fill_seq._seq) == %d" % (k + 1), "len(self._fill_seq._data_seq) == %d" % (k + 1),
+              "self._fill_seq._data_seq[%d] is %s" % (k, a(k))]
+        for i in range(k + 1):
+            cl.append("self._fill_seq._seq[%d] is %s" % (i, a(i)))
         for i in range(k):
-            cl += fill_into_clauses(a(i), "self._fill_seq._data_seq[%d]" % i)
-        cl += chain_clauses("self._fill_seq._fill_el", "self._fill_seq._data_seq", k, a(k))
-        # filling the sequence IS filling its FillSeq: the head of the chain (the element itself when nothing precedes it)
-        cl.append("self.fill is method(%s, 'fill')" % a(0) if k == 0 else
-                  "self.fill is class_method(self._fill_seq._fill_el, 'fill')")
+            cl += fill_into_clauses(a(i), "self._fill_seq._data_seq[%d]" % i)[:2]
+        # the Sequence of the arguments after it
         cl += ["is_instance_of(self._after, 'Sequence')", "len(self._after._data_seq) == %d" % (n - k - 1),
                "len(self._after._seq) == %d" % (n - k - 1)]
         for j in range(k + 1, n):
-            cl += run_clauses(a(j), "self._after._data_seq[%d]" % (j - k - 1))
-        out += ["%s implies (%s)" % (first_is(kind, n, k), c) for c in cl]
+            cl.append("self._after._seq[%d] is %s" % (j - k - 1, a(j)))
+            cl += run_clauses(a(j), "self._after._data_seq[%d]" % (j - k - 1))[:2]
+        out += [under(first_is(kind, n, k, a), c) for c in cl]
     return out
 
 
@@ -142,7 +182,9 @@ def register_fill_compute_seq(ix):
         ix.classes["FillComputeSeq"].bases = ["LenaSequence"]
     else:
         ix.add_class(ClassSpec("FillComputeSeq", FCS, fields={}, bases=["LenaSequence"]))
-    ix.add_class(ClassSpec("FillComputeSeq0", FCS, fields={}, alias_of="FillComputeSeq", bases=["LenaSequence"]))
+    ix.add_class(ClassSpec("FillComputeSeq0", FCS, alias_of="FillComputeSeq", bases=["LenaSequence"],
+                           fields={"_seq": "Lst[Obj]", "_data_seq": "Lst[Obj]", "_fill_compute": "Obj", "fill": "OpaqueFn",
+                                   "_fill_seq": "Inst[FillSeq0]", "_after": "Inst[Sequence_t]"}))
     MOD = ["self._name", "self._seq", "self._data_seq", "self._static_context", "self._exc", "self._fill_compute",
            "self._fill_seq", "self.fill", "self._after"]
 
@@ -155,8 +197,487 @@ def register_fill_compute_seq(ix):
                         params={"self": "Self[FillComputeSeq0]", "args": "Tuple[%s]" % ",".join(["Obj"] * n)}, vararg="args",
                         requires=["not has_attr(%s, '_has_no_data')" % a(i) for i in range(n)],
                         raises={"LenaTypeError": split_bad(IS_FC, n)},
-                        ensures=ens + split_clauses(IS_FC, n, "_fill_compute"), modifies=MOD, max_paths=20000)
-    ix.add(Contract(FCS, "FillComputeSeq.__init__", props=["C05"], cases=[fcs_init(n) for n in (0, 1, 2, 3)]))
+                        ensures=ens + split_clauses(IS_FC, n, "_fill_compute"), modifies=MOD, max_paths=20000,
+                        ghost={"obj_attrs": {"_el": "Obj"}})
+    replace(ix, Contract(FCS, "FillComputeSeq.__init__", props=["C05"], cases=[fcs_init(n) for n in (0, 1, 2, 3)]))
+
+
+def register_fill_request_seq(ix):
+    """_init_sequence_with_el (the constructor of FillRequestSeq): as FillComputeSeq.__init__, for the element kind the caller
+    names; `args can consist of one tuple, which in that case is expanded`"""
+    if "FillRequestSeq" in ix.classes:
+        ix.classes["FillRequestSeq"].bases = ["LenaSequence"]
+    else:
+        ix.add_class(ClassSpec("FillRequestSeq", FRS, fields={}, bases=["LenaSequence"]))
+    # per number of arguments: the data sequence has exactly that many items (the arguments); `fill` is some callable (the
+    # fill of the head of the FillSeq chain: proved as `callable(self.fill)`; callers learn no more about it)
+    # the FillRequest adapter a FillRequestSeq keeps (`self._fr`), as callers of the constructor see it
+    ix.add_class(ClassSpec("FillRequest_of_seq", AD, alias_of="FillRequest",
+                           fields={"bufsize": "Int", "_reset": "Bool", "_buffer_input": "Bool", "_yield_on_remainder": "Bool"}))
+    for n in (0, 1, 2, 3):
+        ix.add_class(ClassSpec("FillRequestSeq_c%d" % n, FRS, alias_of="FillRequestSeq", bases=["LenaSequence"],
+                               fields={"_data_seq": "PyList[%d,Obj]" % n, "fill": "OpaqueFn", "_fill_request": "Obj",
+                                       "_fill_seq": "Inst[FillSeq0]", "_after": "Inst[Sequence_t]", "_seq": "Lst[Obj]",
+                                       "_fr": "Inst[FillRequest_of_seq]", "_reset": "Bool"}))
+    MOD = ["self._data_seq", "self._fill_request", "self._fill_seq", "self.fill", "self._after"]
+    # iterating a sequence object (`self._data_seq.extend(self._fill_seq)`): its real __iter__ is executed in place
+    ix.add(Contract(LS, "LenaSequence.__iter__", props=[], inline=True, params={"self": "Any"}))
+
+    def ise(n, one_tuple=False):
+        # `args can consist of one tuple, which in that case is expanded`
+        a = (lambda i: "args[0][%d]" % i) if one_tuple else ARG
+        objs = "Tuple[%s]" % ",".join(["Obj"] * n)
+        ens = ["len(self._data_seq) == %d" % n]
+        for i in range(n):
+            ens.append("self._data_seq[%d] is %s" % (i, a(i)))
+        return Contract(FCS, "_init_sequence_with_el", name="_init_sequence_with_el[FillRequest, %s%d elements]" % (
+                            "one tuple of " if one_tuple else "", n),
+                        params={"self": "Self[FillRequestSeq_c%d]" % n, "args": "Tuple[%s]" % objs if one_tuple else objs,
+                                "el_attr": "Str['_fill_request']",
+                                "check_el_type": "Def[lena.core.check_sequence_type.is_fill_request_el]",
+                                "el_name": "Str", "seq_name": "Str"},
+                        requires=["not has_attr(%s, '_has_no_data')" % a(i) for i in range(n)] +
+                                 ["not isinstance(%s, tuple)" % a(0)] * (n == 1 and not one_tuple),
+                        raises={"LenaTypeError": split_bad(IS_FR, n, a)},
+                        ensures=ens + ["callable(self.fill)"] * (n > 0) + split_clauses(IS_FR, n, "_fill_request", a),
+                        modifies=MOD, max_paths=20000,
+                        ghost={"obj_attrs": {"_el": "Obj"}})
+    ix.add(Contract(FCS, "_init_sequence_with_el", props=["C05"], cases=[ise(n) for n in (0, 1, 2, 3)] + [ise(2, True)]))
+
+
+def register_fill_request_seq_init(ix):
+    """FillRequestSeq.__init__: `args form a sequence with a FillRequest element ...  kwargs can contain bufsize or reset.  See
+    FillRequest for more information on them.  By default bufsize is 1.  If FillRequest element was not found, the sequences
+    could not be correctly initialized, or unknown keyword arguments were received, LenaTypeError is raised.`"""
+    # ---- the FillRequest adapter around the sequence itself (one more case of the C16 contract of FillRequest.__init__)
+    ix.add_class(ClassSpec("FillRequestSeq_v", FRS, alias_of="FillRequestSeq", bases=["LenaSequence"], fields={"fill": "OpaqueFn"}))
+    ix.add_class(ClassSpec("FillRequest0s", AD, alias_of="FillRequest", fields={"_buffer_input": "Bool", "_n_count": "Int"}))
+    fr_init = ix.by_key[(AD, "FillRequest.__init__")]
+    for bity in ("Bool", "None"):
+        VALUE_BAD = "(bufsize < 1 or (not yield_on_remainder and not buffer_input))" if bity == "Bool" else \
+                    "(bufsize < 1 or not yield_on_remainder)"
+        fr_init.cases.append(Contract(
+            AD, "FillRequest.__init__", name="FillRequest.__init__[around a FillRequestSeq, buffer_input:%s]" % bity,
+            params={"self": "Self[FillRequest0s]", "el": "Inst[FillRequestSeq_v]", "bufsize": "Int", "reset": "Bool",
+                    "buffer_input": bity, "buffer_output": "None", "yield_on_remainder": "Bool", "fill": "Str['fill']",
+                    "request": "Str['request']", "reset_name": "Str['reset']"},
+            # the sequence has fill (installed by its constructor), request and reset: no LenaTypeError; `bufsize must be a
+            # natural number`, `one and only one of buffer_input or buffer_output must be True` (buffer_output is not given)
+            raises={"LenaValueError": VALUE_BAD},
+            ensures=["self._el is el", "self.bufsize == bufsize", "self._reset == reset",
+                     "self._buffer_input == (True if buffer_input else False)",
+                     "self._yield_on_remainder == yield_on_remainder", "self._n_count == 0",
+                     # it fills / requests / resets the SEQUENCE, block by block (no run method there: _run_fill_compute)
+                     "self._el_fill is el.fill", "self._el_request is class_method(el, 'request')",
+                     "self._el_reset is class_method(el, 'reset')", "self.run is class_method(self, '_run_fill_compute')"],
+            modifies=["self._el_reset", "self._reset", "self._buffer_input", "self.run", "self._el_fill", "self._n_count",
+                      "self._buffer_in", "self._buffer_out", "self._el_request", "self.bufsize", "self._yield_on_remainder",
+                      "self._el"]))
+    # ---- the constructor
+    MOD = ["self._data_seq", "self._fill_request", "self._fill_seq", "self.fill", "self._after", "self._fr", "self._reset",
+           "self.run", "self._seq", "self._static_context", "self._exc"]
+
+    def frs_init(n):
+        a = ARG
+        tbad = split_bad(IS_FR, n)
+        ens = ["len(self._seq) == %d" % n, "len(self._data_seq) == %d" % n]
+        for i in range(n):
+            ens += ["self._seq[%d] is %s" % (i, a(i)), "len(self._data_seq) == %d implies self._data_seq[%d] is %s" % (n, i, a(i))]
+        ens += [
+            # the FillRequest adapter that runs the sequence: around the sequence itself, with the keyword arguments given
+            "is_instance_of(self._fr, 'FillRequest')", "self._fr._el is self", "self._fr.bufsize == kwargs['bufsize']",
+            "self._fr._reset == kwargs['reset']", "self._fr._buffer_input == kwargs['buffer_input']",
+            "not self._fr._yield_on_remainder", "self._reset == kwargs['reset']",
+            # run of the sequence IS the run of that adapter: the block discipline of C16
+            "self.run is class_method(self._fr, '_run_fill_compute')"]
+        return Contract(
+            FRS, "FillRequestSeq.__init__", name="FillRequestSeq.__init__[%d elements, bufsize / reset / buffer_input]" % n,
+            params={"self": "Self[FillRequestSeq_c%d]" % n, "args": "Tuple[%s]" % ",".join(["Obj"] * n),
+                    "kwargs": "KwDict[bufsize:Int,reset:Bool,buffer_input:Bool]"}, vararg="args", kwarg="kwargs",
+            requires=["not has_attr(%s, '_has_no_data')" % a(i) for i in range(n)] +
+                     ["not isinstance(%s, tuple)" % a(0)] * (n == 1),
+            raises={"LenaTypeError": tbad,
+                    "LenaValueError": "not (%s) and (kwargs['bufsize'] < 1 or not kwargs['buffer_input'])" % tbad},
+            # (which callable `fill` is, is stated by _init_sequence_with_el; its callers only learn that it is one)
+            ensures=ens + [c for c in split_clauses(IS_FR, n, "_fill_request", a) if "self.fill is" not in c],
+            modifies=MOD, max_paths=20000, ghost={"obj_attrs": {"_el": "Obj"}})
+    # FINDING on the unchanged tree (props=[]; run with tools/dbg.py lena/core/fill_request_seq.py "FillRequestSeq.__init__#documented-kwargs"):
+    # the docstring: `kwargs can contain bufsize or reset ...  By default bufsize is 1` and LenaTypeError as the only exception.
+    # With exactly these keywords (no buffer_input, which the docstring does not mention) the FillRequest adapter refuses:
+    # LenaValueError `one and only one of buffer_input or buffer_output must be set` -- for every element and every value.
+    tbad1 = split_bad(IS_FR, 1)
+    ix.add(Contract(
+        FRS, "FillRequestSeq.__init__", qualkey="FillRequestSeq.__init__#documented-kwargs",
+        name="FillRequestSeq.__init__[1 element, the documented keywords bufsize and reset] (FAILS: new finding)", props=[],
+        params={"self": "Self[FillRequestSeq_c1]", "args": "Tuple[Obj]", "kwargs": "KwDict[bufsize:Int,reset:Bool]"},
+        vararg="args", kwarg="kwargs",
+        requires=["not has_attr(args[0], '_has_no_data')", "not isinstance(args[0], tuple)", "kwargs['bufsize'] >= 1"],
+        raises={"LenaTypeError": tbad1},
+        ensures=["self._fr.bufsize == kwargs['bufsize']", "self._fr._reset == kwargs['reset']", "self._fill_request is args[0]"],
+        modifies=MOD, ghost={"obj_attrs": {"_el": "Obj"}}))
+    return [frs_init(n) for n in (1, 2)]
+
+
+def register_meta(ix):
+    """lena/core/meta.py (property C01: `regrouping the same elements into nested Sequences ... never changes the result`;
+    mechanism `flatten / alter_sequence keep element order`).
+    flatten: every element exactly once, in order, nested sequence objects unrolled; `return unchanged` for a flat input (the
+    very same object) and for an element.  alter_sequence: a tuple, an element without the hook, and a sequence object none
+    of whose elements defines the hook `alter_sequence` come back as they are (the very same object)."""
+    NOSEQ = "not is_instance_of({e}, 'LenaSequence')"
+    NOHOOK = "not (has_attr({e}, 'alter_sequence') and callable_m({e}, 'alter_sequence'))"
+    # sequence objects of a concrete length (what flatten uses of them: isinstance, iteration over the arguments `_seq`)
+    ix.add_class(ClassSpec("SeqObj2", SQ, alias_of="Sequence", bases=["LenaSequence"], fields={"_seq": "Tuple[Obj,Obj]"}))
+    ix.add_class(ClassSpec("SeqObj1", SQ, alias_of="Sequence", bases=["LenaSequence"], fields={"_seq": "Tuple[Obj]"}))
+    ix.add_class(ClassSpec("SeqObjNested", SQ, alias_of="Sequence", bases=["LenaSequence"],
+                           fields={"_seq": "Tuple[Inst[SeqObj2],Obj]"}))
+    ix.add_class(ClassSpec("SeqObjNested2", SQ, alias_of="Sequence", bases=["LenaSequence"],
+                           fields={"_seq": "Tuple[Obj,Inst[SeqObjNested]]"}))
+    flat_seq = lambda name, ty: Contract(
+        MT, "flatten", name="flatten[flat sequence object, %s]" % name, params={"seq": ty}, result="Any", result_alias="seq",
+        requires=[NOSEQ.format(e="seq._seq[%d]" % i) for i in range(int(ty[-2]))], raises={})
+
+    def lst(name, ty, req, items):
+        return Contract(MT, "flatten", name="flatten[%s]" % name, params={"seq": ty}, result="PyList[%d,Obj]" % len(items),
+                        requires=[NOSEQ.format(e=e) for e in req], raises={},
+                        ensures=["len(result) == %d" % len(items)] + ["result[%d] is %s" % (k, e) for k, e in enumerate(items)] +
+                                ["is_fresh(result)"])
+    cases = [
+        Contract(MT, "flatten", name="flatten[element]", params={"seq": "Obj"}, result="Obj", ensures=["result is seq"],
+                 requires=[NOSEQ.format(e="seq"), "not isinstance(seq, tuple)"], raises={})]
+    for n in (0, 1, 2, 3):
+        cases.append(Contract(MT, "flatten", name="flatten[flat tuple of %d elements]" % n,
+                              params={"seq": "Tuple[%s]" % ",".join(["Obj"] * n)}, result="Any", ensures=["result is seq"],
+                              requires=[NOSEQ.format(e="seq[%d]" % i) for i in range(n)], raises={}))
+    cases += [
+        flat_seq("one element", "Inst[SeqObj1]"), flat_seq("two elements", "Inst[SeqObj2]"),
+        # nested sequence objects are unrolled in place: (e, S(a, b)) -> [e, a, b] ...
+        lst("tuple (element, Sequence(a, b))", "Tuple[Obj,Inst[SeqObj2]]", ["seq[0]", "seq[1]._seq[0]", "seq[1]._seq[1]"],
+            ["seq[0]", "seq[1]._seq[0]", "seq[1]._seq[1]"]),
+        lst("tuple (Sequence(a, b), element, Sequence(c))", "Tuple[Inst[SeqObj2],Obj,Inst[SeqObj1]]",
+            ["seq[0]._seq[0]", "seq[0]._seq[1]", "seq[1]", "seq[2]._seq[0]"],
+            ["seq[0]._seq[0]", "seq[0]._seq[1]", "seq[1]", "seq[2]._seq[0]"]),
+        # ... a sequence object holding a sequence object: Sequence(Sequence(a, b), e) -> [a, b, e]
+        lst("Sequence(Sequence(a, b), element)", "Inst[SeqObjNested]", ["seq._seq[0]._seq[0]", "seq._seq[0]._seq[1]", "seq._seq[1]"],
+            ["seq._seq[0]._seq[0]", "seq._seq[0]._seq[1]", "seq._seq[1]"]),
+        # ... and at every depth: Sequence(e, Sequence(Sequence(a, b), f)) -> [e, a, b, f]
+        lst("Sequence(element, Sequence(Sequence(a, b), element))", "Inst[SeqObjNested2]",
+            ["seq._seq[0]", "seq._seq[1]._seq[0]._seq[0]", "seq._seq[1]._seq[0]._seq[1]", "seq._seq[1]._seq[1]"],
+            ["seq._seq[0]", "seq._seq[1]._seq[0]._seq[0]", "seq._seq[1]._seq[0]._seq[1]", "seq._seq[1]._seq[1]"]),
+    ]
+    # callers (Cache.alter_sequence, contracts/P_out.py; alter_sequence below) execute flatten in place from its real text
+    replace(ix, Contract(MT, "flatten", props=["C01"], inline=True, cases=cases))
+    # ---- alter_sequence
+    # len(seq) / seq[ind] of a sequence object of concrete length: the two one-line methods of LenaSequence are executed in
+    # place for the view LenaSequence_v (the C16 contract of __len__ is typed for sequences of symbolic length)
+    ix.add_class(ClassSpec("LenaSequence_v", LS, alias_of="LenaSequence", fields={}))
+    for m in ("__len__", "__getitem__"):
+        ix.add(Contract(LS, "LenaSequence." + m, qualkey="LenaSequence_v." + m, props=[], inline=True, params={"self": "Any"}))
+    for cname in ("SeqObj1", "SeqObj2", "SeqObjNested"):
+        ix.classes[cname].bases = ["LenaSequence_v"]
+    same = dict(result="Any", ensures=["result is seq"], raises={})
+    acases = [
+        Contract(MT, "alter_sequence", name="alter_sequence[element without the hook]", params={"seq": "Obj"},
+                 requires=[NOSEQ.format(e="seq"), "not isinstance(seq, tuple)", NOHOOK.format(e="seq")],
+                 result="Obj", result_alias="seq", raises={})]
+    # the hook of a single element: `return el.alter_sequence(el)` (e.g. a Cache with an up-to-date cache becomes a Source)
+    def sp_hook_result(ip, st, pos, kws):
+        from pyvc.smt import T
+        from pyvc.sym import Opaque
+        from pyvc.speclib import obj_term
+        f = ip.reg.ufun("el_mo_alter_sequence", ["Obj", "Obj"], "Obj")
+        return Opaque(T("(%s %s %s)" % (f, obj_term(pos[0]).s, obj_term(pos[1]).s), "Obj"))
+    ix.spec_names["hook_result"] = sp_hook_result
+    acases.append(Contract(
+        MT, "alter_sequence", name="alter_sequence[element with the hook]", params={"seq": "Obj"},
+        requires=[NOSEQ.format(e="seq"), "not isinstance(seq, tuple)", "has_attr(seq, 'alter_sequence')", "callable_m(seq, 'alter_sequence')"],
+        result="Obj", ensures=["result is hook_result(seq, seq)"], raises={}))
+    for n in (0, 1, 2, 3):
+        # a tuple is not a sequence object: it is taken for one element (which has no hook) -- whatever its items define
+        tty = "Tuple[%s]" % ",".join(["Obj"] * n)
+        acases.append(Contract(MT, "alter_sequence", name="alter_sequence[tuple of %d elements]" % n, params={"seq": tty},
+                               requires=[NOSEQ.format(e="seq[%d]" % i) for i in range(n)], result=tty, result_alias="seq",
+                               raises={}))
+    acases += [
+        Contract(MT, "alter_sequence", name="alter_sequence[sequence object of one element without the hook]",
+                 params={"seq": "Inst[SeqObj1]"}, requires=[NOSEQ.format(e="seq._seq[0]"), NOHOOK.format(e="seq._seq[0]")],
+                 result="Any", result_alias="seq", raises={}),
+        Contract(MT, "alter_sequence", name="alter_sequence[sequence object of two elements without the hook]",
+                 params={"seq": "Inst[SeqObj2]"},
+                 requires=[r.format(e="seq._seq[%d]" % i) for i in (0, 1) for r in (NOSEQ, NOHOOK)],
+                 result="Any", result_alias="seq", raises={}),
+        # nested sequences: flatten hands back a list, which is no sequence object: the original comes back
+        Contract(MT, "alter_sequence", name="alter_sequence[tuple (element, Sequence(a, b))]",
+                 params={"seq": "Tuple[Obj,Inst[SeqObj2]]"},
+                 requires=[NOSEQ.format(e=e) for e in ("seq[0]", "seq[1]._seq[0]", "seq[1]._seq[1]")],
+                 result="Tuple[Obj,Inst[SeqObj2]]", result_alias="seq", raises={}),
+        Contract(MT, "alter_sequence", name="alter_sequence[Sequence(Sequence(a, b), element)]",
+                 params={"seq": "Inst[SeqObjNested]"},
+                 requires=[NOSEQ.format(e=e) for e in ("seq._seq[0]._seq[0]", "seq._seq[0]._seq[1]", "seq._seq[1]")],
+                 result="Any", result_alias="seq", raises={}),
+    ]
+    # An abstract object -- also an item of a tuple -- may be a sequence OBJECT (a branch of Split given as a Sequence:
+    # contracts/P_split.py); iterating an abstract object is not modelled.  For callers that pass abstract objects whose
+    # class they do not restrict, the two assumed cases of P_split.py therefore stay in front (cases are chosen by type); the
+    # proved cases below (elements and items that are no sequence objects; sequence objects of concrete shape) are verified
+    # as units of their own and are what a caller gets that passes sequence objects of these shapes.
+    prev = ix.by_key.get((MT, "alter_sequence"))
+    kept = [c for c in ((prev.cases or []) if prev is not None else []) if c.trusted]
+    replace(ix, Contract(MT, "alter_sequence", props=["C01", "C03"], cases=kept + acases))
+
+
+# ---------------------------------------------------------------------------------------------- regrouping (C01)
+# `regrouping the same elements into nested Sequences ... never changes the result`.  Sequence.run (contracts/C01.py) yields
+# seq_run(els, xs, n): xs passed through the run of els[0..n) from left to right (pyvc/speclib.py).  Lemma objects over
+# that DEFINITION only:
+#   R1  two runs that start from equal flows and continue over equal segments of elements end in equal flows
+#       (induction over the length of the segment; hypothesis = the statement for the segment without its last element);
+#   R2  the run of a concatenation is the composition of the runs (two instances of R1);
+#   R3  a sequence holding a NESTED sequence -- an element whose el_run is the fold over its own elements, which is what the
+#       contract of Sequence.run says of a Sequence object -- runs like the flat sequence of the same elements (R1 thrice).
+def _decl_seq_run(reg):
+    sort, osort = reg.lst("V"), reg.lst("Obj")
+    reg.ufun("el_run", ["Obj", sort], sort)
+    reg.fun_decl("seq_run",
+                 "(define-fun-rec seq_run ((es %s) (xs %s) (n Int)) %s "
+                 "(ite (<= n 0) xs (el_run (select (arr_%s es) (- n 1)) (seq_run es xs (- n 1)))))" % (osort, sort, sort, osort))
+    return sort, osort
+
+
+def _alike(es, xs, a, es2, xs2, b, k):
+    """R1 at these arguments (SMT text)"""
+    return ("(=> (and (>= {a} 0) (>= {b} 0) (>= {k} 0) "
+            "(forall ((j Int)) (=> (and (<= 0 j) (< j {k})) (= (select (arr_Lst_Obj {es}) (+ {a} j)) (select (arr_Lst_Obj {es2}) (+ {b} j))))) "
+            "(= (seq_run {es} {xs} {a}) (seq_run {es2} {xs2} {b}))) "
+            "(= (seq_run {es} {xs} (+ {a} {k})) (seq_run {es2} {xs2} (+ {b} {k}))))").format(es=es, xs=xs, a=a, es2=es2, xs2=xs2, b=b, k=k)
+
+
+def _finish(ip, st, name, goal, cases=None):
+    from pyvc.interp import VC
+    from pyvc.smt import FALSE, T
+    if cases:
+        assert len(cases) == 2 and cases[1] == "(not %s)" % cases[0]      # exhaustive by form
+        for c in cases:
+            ip.emit("lemma", "%s [case %s]" % (name, c), st.fork(T(c, "Bool"), ""), T(goal, "Bool"))
+    else:
+        ip.emit("lemma", name, st, T(goal, "Bool"))
+    ip.vcs.append(VC("cover requires", "cover", list(st.pc), FALSE, ""))
+    ip.vcs.append(VC("canary ensures False#0", "canary", list(st.pc), FALSE, ""))
+
+
+def _r1_instance(ip, st, *args):
+    from pyvc.smt import T
+    st.assume(T(_alike(*args), "Bool"))
+    ip.assumptions.add("instances of lemma R1 (proved as a Lemma object in contracts/P_seq.py for arbitrary arguments) are "
+                       "used as hypotheses")
+
+
+def lem_r1(ip, st):
+    from pyvc.smt import T
+    reg = ip.reg
+    sort, osort = _decl_seq_run(reg)
+    es, es2 = reg.new("es", osort).s, reg.new("es2", osort).s
+    xs, xs2 = reg.new("xs", sort).s, reg.new("xs2", sort).s
+    a, b, k = reg.new("a", "Int").s, reg.new("b", "Int").s, reg.new("k", "Int").s
+    st.assume(T(_alike(es, xs, a, es2, xs2, b, "(- %s 1)" % k), "Bool"))          # induction hypothesis
+    _finish(ip, st, "R1: equal starts, equal segments of elements: equal results", _alike(es, xs, a, es2, xs2, b, k),
+            cases=["(<= %s 0)" % k, "(not (<= %s 0))" % k])
+
+
+def lem_r2(ip, st):
+    reg = ip.reg
+    sort, osort = _decl_seq_run(reg)
+    es, es1, es2 = reg.new("es", osort).s, reg.new("es1", osort).s, reg.new("es2", osort).s
+    xs = reg.new("xs", sort).s
+    n1, n2 = reg.new("n1", "Int").s, reg.new("n2", "Int").s
+    y = "(seq_run %s %s %s)" % (es1, xs, n1)
+    _r1_instance(ip, st, es, xs, "0", es1, xs, "0", n1)
+    _r1_instance(ip, st, es, xs, n1, es2, y, "0", n2)
+    _finish(ip, st, "R2: seq_run of a concatenation is the composition of the seq_runs",
+            "(=> (and (>= {n1} 0) (>= {n2} 0) "
+            "(forall ((i Int)) (=> (and (<= 0 i) (< i {n1})) (= (select (arr_Lst_Obj {es}) i) (select (arr_Lst_Obj {es1}) i)))) "
+            "(forall ((j Int)) (=> (and (<= 0 j) (< j {n2})) (= (select (arr_Lst_Obj {es}) (+ {n1} j)) (select (arr_Lst_Obj {es2}) j))))) "
+            "(= (seq_run {es} {xs} (+ {n1} {n2})) (seq_run {es2} {y} {n2})))".format(es=es, es1=es1, es2=es2, xs=xs, n1=n1, n2=n2, y=y))
+
+
+def lem_r3(ip, st):
+    from pyvc.smt import T
+    reg = ip.reg
+    sort, osort = _decl_seq_run(reg)
+    outer, flat, inner = reg.new("outer", osort).s, reg.new("flat", osort).s, reg.new("inner", osort).s
+    xs = reg.new("xs", sort).s
+    nested = reg.new("nested", "Obj").s
+    p, m, q = reg.new("p", "Int").s, reg.new("m", "Int").s, reg.new("q", "Int").s
+    sel = lambda l, i: "(select (arr_Lst_Obj %s) %s)" % (l, i)
+    rng = lambda v, n, body: "(forall ((%s Int)) (=> (and (<= 0 %s) (< %s %s)) %s))" % (v, v, v, n, body)
+    for h in ["(>= %s 0)" % p, "(>= %s 0)" % m, "(>= %s 0)" % q,
+              # outer = pre ++ [nested] ++ post,  flat = pre ++ inner ++ post
+              rng("i", p, "(= %s %s)" % (sel(outer, "i"), sel(flat, "i"))),
+              "(= %s %s)" % (sel(outer, p), nested),
+              rng("j", m, "(= %s %s)" % (sel(flat, "(+ %s j)" % p), sel(inner, "j"))),
+              rng("j", q, "(= %s %s)" % (sel(outer, "(+ (+ %s 1) j)" % p), sel(flat, "(+ (+ %s %s) j)" % (p, m)))),
+              # the nested sequence as an element: its run is the fold over its own elements (Sequence.run, C01.py)
+              "(forall ((ys %s)) (! (= (el_run %s ys) (seq_run %s ys %s)) :pattern ((el_run %s ys))))" % (sort, nested, inner, m, nested)]:
+        st.assume(T(h, "Bool"))
+    y0 = "(seq_run %s %s %s)" % (flat, xs, p)
+    _r1_instance(ip, st, outer, xs, "0", flat, xs, "0", p)                       # the common prefix
+    _r1_instance(ip, st, flat, xs, p, inner, y0, "0", m)                         # inner, run inside flat = run on its own
+    _r1_instance(ip, st, outer, xs, "(+ %s 1)" % p, flat, xs, "(+ %s %s)" % (p, m), q)      # the common suffix
+    _finish(ip, st, "R3: a nested sequence runs like its elements in place (regrouping)",
+            "(= (seq_run %s %s (+ (+ %s 1) %s)) (seq_run %s %s (+ (+ %s %s) %s)))" % (outer, xs, p, q, flat, xs, p, m, q))
+
+
+def register_regrouping(ix):
+    from pyvc.verify import Lemma
+    for name, build, note in [
+            ("regrouping R1: seq_run continues alike over equal segments of elements", lem_r1,
+             "induction over the length of the segment; hypothesis = the statement for the segment without its last element"),
+            ("regrouping R2: seq_run of a concatenation is the composition of the seq_runs", lem_r2, "two instances of R1"),
+            ("regrouping R3: a Sequence holding a nested Sequence runs like the flat Sequence", lem_r3,
+             "three instances of R1; the nested sequence is an element whose el_run is seq_run over its own elements "
+             "(the postcondition of Sequence.run)")]:
+        ix.lemmas.append(Lemma(name, SQ, ["C01"], build, notes=note))
+
+
+# ---------------------------------------------------------------------------------------------- fill (C05)
+def register_fill_chain(ix):
+    """FillSeq.fill: `Value is transformed by every element of this sequence, and after that fills the last element` -- the
+    chain of _Fill objects the constructor builds (FillSeq.__init__ above).  One link whose element is the FillInto adapter of
+    a callable is contracts/P_fr.py `_Fill.fill`; here: a link whose NEXT link is a _Fill again (two callables before the last
+    element), through one more case of FillInto.fill_into (the element that is filled is a _Fill object)."""
+    ST = "elstate({e}) == el_fill({e}, old(elstate({e})), {v})"
+    # the methods the classes define are placeholders: the constructors install the real ones as instance attributes
+    for f, cls, spec in ((FS, "FillSeq", "FillSeq0"), (FCS, "FillComputeSeq", "FillComputeSeq0"), (FRS, "FillRequestSeq", "FillRequestSeq_c1")):
+        ix.add(Contract(f, cls + ".fill", props=["C05"], params={"self": "Self[%s]" % spec, "value": "V"},
+                        raises={"LenaNotImplementedError": "True"}, raises_frame="pure"))
+    base = ix.by_key[(AD, "FillInto.fill_into")]
+    ix.add(Contract(AD, "FillInto.fill_into", qualkey="FillInto1.fill_into", props=["C05"], cases=[
+        Contract(AD, "FillInto.fill_into", name="FillInto.fill_into[element]", params=dict(base.params), raises=dict(base.raises),
+                 ghost=dict(base.ghost), ensures=list(base.ensures)),
+        Contract(AD, "FillInto.fill_into", name="FillInto.fill_into[the element is a link of a FillSeq chain]",
+                 params={"self": "Self[FillInto1]", "element": "Inst[_Fill]", "value": "V"},
+                 raises={"LenaStopFill": "?"}, ghost={"elstate": True},
+                 # the link is filled with the transformed value: its own adapter transforms it once more and fills its element
+                 ensures=[ST.format(e="element._fill_el", v="el_call(element._fill_into_el._el, el_call(self._el, value))")])]))
+    ix.add_class(ClassSpec("_Fill_2", FS, alias_of="_Fill", fields={"_fill_into_el": "Inst[FillInto1]", "_fill_el": "Inst[_Fill]"}))
+    ix.add(Contract(
+        FS, "_Fill.fill", qualkey="_Fill_2.fill", name="_Fill.fill[two callables before the last element]", props=["C05"],
+        params={"self": "Self[_Fill_2]", "value": "V"}, raises={"LenaStopFill": "?"}, ghost={"elstate": True},
+        # `passes through every pre-element in order and the LAST element is filled with the result`
+        ensures=[ST.format(e="self._fill_el._fill_el",
+                           v="el_call(self._fill_el._fill_into_el._el, el_call(self._fill_into_el._el, value))")]))
+
+
+def lem_drivers(npre, wrong_order=False):
+    """C05, result level, over the contracts only: for a chain  f_1 .. f_npre (callables), acc (fill / compute), post.. (run
+    elements)  and any flow xs, starting from the same state of acc:
+        A. Sequence(f.., acc, post..).run(xs): the Run adapters of the callables map them over the flow (Run._call_run), the
+           Run adapter of acc fills everything and computes (Run._fc_run), the rest is Sequence.run over post;
+        B. FillComputeSeq(f.., acc, post..): fill(x) for every x of xs in order -- the _Fill chain (FillSeq.__init__; _Fill.fill,
+           FillInto.fill_into) -- then compute() (FillComputeSeq.compute).
+    Obligations: [step] one fill through the chain advances  fold_fill(acc, s0, ys, .)  by one value, ys = the mapped flow
+    (the induction step over the length of the flow; the base is fold_fill(.., 0) = s0 by definition); [result] with all of xs
+    filled, compute() delivers exactly what A delivers.  Outcomes in which a fill signals LenaStopFill are not compared: the
+    contracts leave its condition open (`?`); a callable before the accumulator adds none of its own (FillInto.fill_into), and
+    when the accumulator's own fill stops, A lets the exception pass (Run._fc_run) -- stopping pre-elements (Slice, Filter:
+    their fill_into against their run) are the subject of the contracts of lena.flow."""
+    def build(ip, st):
+        import ast as _ast
+        from pyvc.calls import apply_contract, eval_spec, spec_state, call_value
+        from pyvc.interp import VC
+        from pyvc.smt import FALSE
+        from pyvc.sym import ObjCell, Fun
+        C = ip.contracts
+        fill_link = {0: None, 1: C.by_key[(FS, "_Fill.fill")], 2: C.by_key[(FS, "_Fill_2.fill")]}[npre]
+        # ---- the objects: the chain of B is made first; its callables / accumulator are then shared with the adapters of A
+        if npre == 0:
+            acc, fs = ip.make("Obj", "acc", st), []
+            head = None
+        else:
+            head = ip.make("Inst[%s]" % ("_Fill" if npre == 1 else "_Fill_2"), "chain", st)
+            h = st.heap[head.cid].fields
+            if npre == 1:
+                fs, acc = [st.heap[h["_fill_into_el"].cid].fields["_el"]], h["_fill_el"]
+            else:
+                h2 = st.heap[h["_fill_el"].cid].fields
+                fs = [st.heap[h["_fill_into_el"].cid].fields["_el"], st.heap[h2["_fill_into_el"].cid].fields["_el"]]
+                acc = h2["_fill_el"]
+        after = ip.make("Inst[Sequence_t]", "after", st)
+        for inv in C.classes["Sequence_t"].invariant:
+            st.assume(eval_spec(ip, st, {"self": after}, inv))
+        fcs = ip.make("Inst[FillComputeSeq]", "fcs", st)
+        st.heap[fcs.cid] = ObjCell(st.heap[fcs.cid].cls, dict(st.heap[fcs.cid].fields, _fill_compute=acc, _after=after))
+        flow = ip.make("Iter[V]", "flow", st)
+        n = ip.make("Int", "n", st)
+        env = {"acc": acc, "after": after, "flow": flow, "n": n}
+        st.assume(eval_spec(ip, st, env, "pulled(flow) == 0"))
+        from pyvc.calls import elem_state
+        elem_state(ip, st, acc)                      # (creates the ghost map of element states)
+        elst0 = st.env["$elst"]
+        from pyvc.sym import Opaque
+        env["s0"] = Opaque(elem_state(ip, st, acc))
+        ip.entry = st.copy()
+        ip.oldst = ip.entry
+
+        def spec(s_, text, **more):
+            return eval_spec(ip, s_, dict(env, **dict(more, **{"$elst": s_.env["$elst"]})), text)
+        # ---- A: the Sequence.  Run adapters: instances of the class spec `Run` around the SAME callables / accumulator
+        cur = flow
+        for f in (reversed(fs) if wrong_order else fs):          # (wrong_order: self-test of the lemma, must NOT prove)
+            r = ip.make("Inst[Run]", "run_f", st)
+            st.heap[r.cid] = ObjCell(st.heap[r.cid].cls, dict(st.heap[r.cid].fields, _el=f))
+            (st, cur), = apply_contract(ip, st, C.by_key[(AD, "Run._call_run")], [r, cur], {})
+        env["ys"] = cur                                # the mapped flow (an iterator nobody has pulled from)
+        st.assume(spec(st, "pulled(ys) == 0"))
+        r = ip.make("Inst[Run]", "run_acc", st)
+        st.heap[r.cid] = ObjCell(st.heap[r.cid].cls, dict(st.heap[r.cid].fields, _el=acc))
+        n_exc = len(ip._exc_out)
+        (st, computed), = apply_contract(ip, st, C.by_key[(AD, "Run._fc_run")], [r, cur], {})
+        del ip._exc_out[n_exc:]                        # (A stopped by the accumulator: not compared, see above)
+        seq_run_c = [c for c in C.by_key[(SQ, "Sequence.run")].cases if "iterator" in c.name][0]
+        (st, res_a), = apply_contract(ip, st, seq_run_c, [after, computed], {})
+        env["res_a"] = res_a
+        # ---- B: the same accumulator from the same state
+        st.env["$elst"] = elst0
+        # [step]
+        s1 = st.copy()
+        s1.assume(spec(s1, "1 <= n and n <= len(content(flow))"))
+        s1.assume(spec(s1, "elstate(acc) == fold_fill(acc, s0, content(ys), n - 1)"))
+        ip.spec_mode += 1
+        try:
+            value = ip.ev1(_ast.parse("content(flow)[n - 1]", mode="eval").body, spec_state(s1, dict(env)))
+        finally:
+            ip.spec_mode -= 1
+        n_exc = len(ip._exc_out)
+        if head is None:
+            outs = call_value(ip, s1, Fun("elem-method", elem=acc, name="fill"), [value], {})
+        else:
+            outs = apply_contract(ip, s1, fill_link, [head, value], {})
+        (s1, _), = outs
+        ip.emit("lemma", "[step] one fill through the chain: the accumulator holds the fold of the mapped flow over one more value",
+                s1, spec(s1, "elstate(acc) == fold_fill(acc, s0, content(ys), n)"))
+        ip.vcs.append(VC("canary ensures False#1", "canary", list(s1.pc), FALSE, ""))
+        del ip._exc_out[n_exc:]
+        # [result]
+        s2 = st.copy()
+        s2.assume(spec(s2, "elstate(acc) == fold_fill(acc, s0, content(ys), len(content(flow)))"))
+        (s2, res_b), = apply_contract(ip, s2, C.by_key[(FCS, "FillComputeSeq.compute")], [fcs], {})
+        ip.emit("lemma", "[result] fill every value, then compute: exactly the values Sequence.run delivers", s2,
+                spec(s2, "same(content(res_b), content(res_a)) and pulled(res_b) == 0 and pulled(res_a) == 0", res_b=res_b))
+        ip.vcs.append(VC("canary ensures False#2", "canary", list(s2.pc), FALSE, ""))
+        ip.vcs.append(VC("cover requires", "cover", list(st.pc), FALSE, ""))
+    return build
+
+
+def register_driver_lemmas(ix):
+    from pyvc.verify import Lemma
+    for k in (0, 1, 2):
+        ix.lemmas.append(Lemma(
+            "C05 drivers: FillComputeSeq filled value by value and computed == Sequence.run (%d callable%s before the accumulator)"
+            % (k, "" if k == 1 else "s"), FCS, ["C05"], lem_drivers(k),
+            notes="over the contracts of Run._call_run / Run._fc_run / Sequence.run and of _Fill.fill / FillInto.fill_into / "
+                  "FillComputeSeq.compute; induction over the length of the flow: the step is an obligation, the base holds by "
+                  "the definition of fold_fill"))
 
 
 def declare_adapter_attr(ix):
@@ -172,6 +693,35 @@ def declare_adapter_attr(ix):
             case.ghost.setdefault("obj_attrs", {}).setdefault("_el", "Obj")
 
 
+def replace(ix, c):
+    """register c under its key INSTEAD of the contract an earlier module registered there (the assumed constructor
+    contracts of contracts/P_split.py)"""
+    old = ix.by_key.get(c.key)
+    if old is not None:
+        ix.by_simple[old.simple] = [x for x in ix.by_simple.get(old.simple, []) if x is not old]
+    return ix.add(c)
+
+
+def retarget_split_contracts(ix):
+    """contracts/P_split.py stated what the (then assumed) constructor of FillRequestSeq does through ghost fields _g_*
+    recording its arguments.  The proved constructor speaks about the real attributes: the arguments are `_seq`, the keyword
+    arguments are those of the FillRequest adapter `_fr` the sequence runs through.  The clauses of _get_seq_with_type and
+    Split.__init__ are re-worded accordingly (same statements, now proved against proved callee contracts)."""
+    SP = "lena/core/split.py"
+    ren = [("._g_args[", "._seq["), ("._g_bufsize", "._fr.bufsize"), ("._g_reset", "._fr._reset"),
+           ("._g_buffer_input", "._fr._buffer_input")]
+
+    def fix(text):
+        for a, b in ren:
+            text = text.replace(a, b)
+        return text
+    for key in ((SP, "_get_seq_with_type#spec"), (SP, "Split.__init__")):
+        c = ix.by_key.get(key)
+        for case in ((c.cases or [c]) if c is not None else []):
+            case.ensures = [fix(x) for x in case.ensures]
+            case.exc_ensures = {k: [fix(x) for x in v] for k, v in case.exc_ensures.items()}
+
+
 def register(ix):
     # FillInto.__init__ (proved under C05.py) is executed in place at its call in FillSeq.__init__, like Run.__init__ in
     # Sequence.__init__: the caller states which implementation of fill_into the adapter of each element kind got
@@ -179,3 +729,19 @@ def register(ix):
     register_fill_seq(ix)
     declare_adapter_attr(ix)
     register_fill_compute_seq(ix)
+    register_fill_request_seq(ix)
+    cases = register_fill_request_seq_init(ix)
+    # (C03: Split.__init__ builds a FillRequestSeq for a tuple branch with a FillRequest element; its proof now rests on this
+    # proved constructor instead of an assumed one)
+    replace(ix, Contract(FRS, "FillRequestSeq.__init__", props=["C05", "C03"], cases=cases))
+    retarget_split_contracts(ix)
+    register_meta(ix)
+    register_regrouping(ix)
+    register_fill_chain(ix)
+    # proved under C16 (contracts/P_fr.py): what compute() / request() / reset() of the two sequences do -- the other half of
+    # the drivers of C05 (the lemmas below rest on FillComputeSeq.compute)
+    for key in ((FCS, "FillComputeSeq.compute"), (FRS, "FillRequestSeq.request"), (FRS, "FillRequestSeq.reset"), (FS, "_Fill.fill")):
+        c = ix.by_key.get(key)
+        if c is not None and "C05" not in c.props:
+            c.props.append("C05")
+    register_driver_lemmas(ix)
